@@ -130,7 +130,7 @@ func (d *driver) groundFor(powers []int64, last int64, rc bool) (*groundWorld, e
 	if gw, ok := d.grounds[key]; ok {
 		return gw, nil
 	}
-	w, err := newWorld(powers, nil)
+	w, err := newWorld(powers, nil, nil)
 	if err != nil {
 		return nil, err
 	}
@@ -322,7 +322,7 @@ func (d *driver) chain(ti int, tr mbt.Trace) {
 	var w *world
 	var err error
 	pn, stack := mbt.Catch(func() {
-		w, err = newWorld(powers, nil)
+		w, err = newWorld(powers, nil, nil)
 		if err != nil {
 			return
 		}
@@ -381,7 +381,7 @@ func (d *driver) schedule(powers []int64) ([]int, error) {
 	if s, ok := d.sched[key]; ok {
 		return s, nil
 	}
-	w, err := newWorld(powers, nil)
+	w, err := newWorld(powers, nil, nil)
 	if err != nil {
 		return nil, err
 	}
@@ -465,7 +465,7 @@ func (d *driver) byz(ti int, tr mbt.Trace) {
 	k := sched[target]
 	var w *world
 	pn, stack := mbt.Catch(func() {
-		w, err = newWorld(powers, []int{k})
+		w, err = newWorld(powers, []int{k}, nil)
 		if err == nil && last > 0 {
 			err = w.run(last)
 		}
